@@ -342,3 +342,107 @@ theorem reply_hdr_ok : headerSumOk (bytesAt (replyP f p t a pool cfg) p.ipOff 20
   rfl
 
 end reply
+
+/-! ### the monitor's predicate holds of the transmitted frame -/
+
+theorem be16At_of {g : Frame} {o : Nat} {x : UInt16} (h : bytesAt g o 2 = leBytes 2 (htons x).toNat) :
+    be16At g o = x.toNat := by
+  have hx : x.toNat < 65536 := x.toNat_lt
+  unfold be16At
+  rw [h, leBytes2_htons]
+  simp only [UInt8.toNat_ofNat']
+  omega
+
+theorem ipLenOf_toNat {n : Nat} (h : n ≤ 50) : (ipLenOf n).toNat = 268 + n := by
+  simp only [ipLenOf, DHCP_FIXED, UInt16.toNat_add, UInt16.toNat_ofNat', UInt16.toNat_ofNat]
+  omega
+
+theorem udpLenOf_toNat {n : Nat} (h : n ≤ 50) : (udpLenOf n).toNat = 248 + n := by
+  simp only [udpLenOf, DHCP_FIXED, UInt16.toNat_add, UInt16.toNat_ofNat', UInt16.toNat_ofNat]
+  omega
+
+/-- `giaddr != 0` as the program tests it (a `__u32` load) is "the four bytes are not all zero" -/
+theorem giaddr_ne_zero_iff (bs : List UInt8) (hl : bs.length = 4) :
+    (UInt32.ofNat (leNat bs) != 0) = (bs != [0, 0, 0, 0]) := by
+  match bs, hl with
+  | [a, b, c, d], _ =>
+    have ha := a.toNat_lt; have hb := b.toNat_lt; have hc := c.toNat_lt; have hd := d.toNat_lt
+    have hlt : leNat [a, b, c, d] < 4294967296 := by simp only [leNat]; omega
+    by_cases hz : [a, b, c, d] = [0, 0, 0, 0]
+    · simp only [List.cons.injEq, and_true] at hz
+      obtain ⟨rfl, rfl, rfl, rfl⟩ := hz
+      rfl
+    · have h1 : ([a, b, c, d] != [0, 0, 0, 0]) = true := by simpa using hz
+      rw [h1]
+      simp only [bne_iff_ne, ne_eq]
+      intro h0
+      apply hz
+      have h2 : (UInt32.ofNat (leNat [a, b, c, d])).toNat = 0 := by rw [h0]; rfl
+      rw [UInt32.toNat_ofNat', Nat.mod_eq_of_lt hlt] at h2
+      simp only [leNat] at h2
+      have e1 : a.toNat = 0 := by omega
+      have e2 : b.toNat = 0 := by omega
+      have e3 : c.toNat = 0 := by omega
+      have e4 : d.toNat = 0 := by omega
+      simp only [List.cons.injEq, and_true]
+      exact ⟨UInt8.toNat_inj.mp e1, UInt8.toNat_inj.mp e2, UInt8.toNat_inj.mp e3, UInt8.toNat_inj.mp e4⟩
+
+/-- the options `build_dhcp_options` writes are a TLV sequence ending with END as its last byte -/
+theorem tlvEnd_optsBytes (t : UInt8) (pool : Bytes) (sip : UInt32) :
+    tlvEnd (optsBytes t pool sip).length (optsBytes t pool sip) = some (optsBytes t pool sip).length := by
+  unfold optsBytes dnsBytes opt4
+  simp only [leBytes4_eq]
+  split
+  · split <;> simp [tlvEnd]
+  · simp [tlvEnd]
+
+/-- the first option is the message type -/
+theorem opt53_optsBytes (t : UInt8) (pool : Bytes) (sip : UInt32) : opt 53 (optsBytes t pool sip) = some [t] := by
+  unfold optsBytes opt
+  simp [tlvGet, opt4, List.length_append]
+
+/-- **The transmitted frame is a well-formed reply to its request**: every check of the monitor predicate
+    `replyDefect` passes on `replyP`. -/
+theorem reply_wellformed {f : Frame} {p : Pkt} (wf : p.WF f) (hroom : p.dhcpOff + 240 + 64 ≤ f.length)
+    (t : UInt8) (a pool cfg : Bytes) : replyDefect f (replyP f p t a pool cfg) p = none := by
+  have ho := replyOpts_length t pool cfg
+  have hip := wf.ip; have hudp := wf.udp; have hdh := wf.dhcp; have hv := wf.vlan
+  have e_len := reply_length wf hroom t a pool cfg
+  have e_ip : be16At (replyP f p t a pool cfg) (p.ipOff + 2) = 268 + (replyOpts t pool cfg).length := by
+    rw [be16At_of (reply_iplen wf hroom t a pool cfg), ipLenOf_toNat ho.2]
+  have e_udp : be16At (replyP f p t a pool cfg) (p.udpOff + 4) = 248 + (replyOpts t pool cfg).length := by
+    rw [be16At_of (reply_udplen wf hroom t a pool cfg), udpLenOf_toNat ho.2]
+  have e_l2 := reply_unchanged wf hroom t a pool cfg (o := 12) (k := p.ipOff - 12) (Or.inl (by omega))
+  have e_v := reply_unchanged wf hroom t a pool cfg (o := p.ipOff) (k := 2) (Or.inl (by omega))
+  have e_pr := reply_unchanged wf hroom t a pool cfg (o := p.ipOff + 9) (k := 1) (Or.inr (Or.inr (Or.inl ⟨rfl, rfl⟩)))
+  have e_ck := reply_hdr_ok wf hroom t a pool cfg
+  have e_sp : be16At (replyP f p t a pool cfg) p.udpOff = 67 := by
+    rw [be16At_of (reply_sport wf hroom t a pool cfg)]; rfl
+  have hgl : (bytesAt f (p.dhcpOff + 24) 4).length = 4 := by simp only [bytesAt_length]; omega
+  have e_dp : be16At (replyP f p t a pool cfg) (p.udpOff + 2)
+      = (if (bytesAt f (p.dhcpOff + 24) 4 != [0, 0, 0, 0]) = true then 67 else 68) := by
+    rw [be16At_of (reply_dport wf hroom t a pool cfg), giaddr_ne_zero_iff _ hgl]
+    split <;> rfl
+  have e_op := reply_op wf hroom t a pool cfg
+  have e_xid := reply_unchanged wf hroom t a pool cfg (o := p.dhcpOff + 4) (k := 4)
+    (Or.inr (Or.inr (Or.inr (Or.inr (Or.inl (by omega))))))
+  have e_ch := reply_unchanged wf hroom t a pool cfg (o := p.dhcpOff + 28) (k := 16)
+    (Or.inr (Or.inr (Or.inr (Or.inr (Or.inr (Or.inl (by omega)))))))
+  have e_mg := reply_unchanged wf hroom t a pool cfg (o := p.dhcpOff + 236) (k := 4)
+    (Or.inr (Or.inr (Or.inr (Or.inr (Or.inr (Or.inr (by omega)))))))
+  have e_opts := reply_opts wf hroom t a pool cfg
+  have e_tlv : tlvEnd (replyOpts t pool cfg).length (replyOpts t pool cfg) = some (replyOpts t pool cfg).length :=
+    tlvEnd_optsBytes _ _ _
+  unfold replyDefect
+  simp only [e_len, e_ip, e_udp, e_l2, e_v, e_pr, e_ck, e_sp, e_dp, e_op, e_xid, e_ch, e_mg, e_opts, e_tlv]
+  have h1 : 14 + p.vlanOff + 268 + (replyOpts t pool cfg).length = 14 + p.vlanOff + (268 + (replyOpts t pool cfg).length) := by
+    omega
+  have h2 : 248 + (replyOpts t pool cfg).length + 20 = 268 + (replyOpts t pool cfg).length := by omega
+  simp only [h1, h2, bne_self_eq_false, Bool.false_eq_true, if_false, Bool.not_true]
+
+/-- the reply's message type is OFFER for a (detected) DISCOVER and ACK for a (detected) REQUEST -/
+theorem reply_type {f : Frame} {p : Pkt} (wf : p.WF f) (hroom : p.dhcpOff + 240 + 64 ≤ f.length)
+    (t : UInt8) (a pool cfg : Bytes) :
+    opt 53 ((replyP f p t a pool cfg).drop (p.dhcpOff + 240)) = some [replyTypeOf t] := by
+  rw [reply_opts wf hroom t a pool cfg]
+  exact opt53_optsBytes _ _ _
